@@ -5,8 +5,8 @@ from __future__ import annotations
 import ast
 
 from ..astutil import (
-    attr_stores, call_name, calls_in, dotted, enclosing_withs, guard_atoms, lexical_guards, name_stores,
-    names_in, unparse, walk_local, walk_stmts,
+    attr_stores, call_name, calls_in, dotted, enclosing_withs, guard_atoms, name_stores, parent_map,
+    unparse, walk_local, walk_stmts,
 )
 from ..cfg import no_exc
 from ..report import Registry, sub, chain
@@ -15,7 +15,7 @@ from ._helpers_rules_c import (
     test_edges,
 )
 from ._helpers_str_l import assignments, branch_atoms, consistent_ok, describe_facts
-from ._helpers_rob_f1 import Inliner, rcall_nodes, test_edges_inl
+from ._helpers_rob_f1 import Inliner, rcall_nodes, test_edges_inl, with_inlined_tests
 
 R = Registry(
     "C28",
@@ -112,15 +112,18 @@ def r1(ctx):
         names = [p for p, a in bound.items() if isinstance(a, ast.Name) and a.id == retry]
         ctx.require(len(names) == 1, f"{body.qualname}: cannot tell which parameter receives retry_on_exception")
         retry = names[0]
-    g = ctx.cfg(body, exception_is_catch_all=False)
-    pm = body.module.parents()
-    inl = Inliner(body.node)
+    # boolean locals used as guards (`mark = not failed or not retry; if mark:`) are written out before the
+    # path-sensitive search; bnode is a private copy of the function with its own parent map
+    bnode = with_inlined_tests(body.node)
+    g = ctx.cfg(bnode, exception_is_catch_all=False)
+    pm = parent_map(bnode)
+    inl = Inliner(bnode)
     is_mutex = _mutex_pred(inl)
     ps = PathSense(g)
     site_locked = site is not None and _in_with(pm_f, gf.nodes[site[0]].stmt, mutex_f)
     locked = lambda node: site_locked or _in_with(pm, node, is_mutex)  # noqa: E731
     inv = _self_invocations(g)
-    sets = _flag_stores(g, body.node, "_exec_once", True)
+    sets = _flag_stores(g, bnode, "_exec_once", True)
     ctx.require(sets, "_exec_once_impl never sets self._exec_once = True")
     problems = []
     for n in inv + sets:
@@ -129,7 +132,7 @@ def r1(ctx):
             problems.append(f"`{unparse(st).splitlines()[0]}` is outside `with self._get_exec_once_mutex()`")
     # the re-test: a branch outcome `not self._exec_once` that dominates the dispatch and is evaluated after the
     # mutex was taken (whatever the shape: nested if, early return, in the helper or at its call site)
-    snaps = _snapshot_names(body.node, "_exec_once", locked)
+    snaps = _snapshot_names(bnode, "_exec_once", locked)
     for n in inv:
         atoms = guard_atoms([(t, p) for t, p in g.edge_guards(n) if locked(t)])
         if site is not None:
@@ -617,8 +620,9 @@ def r5(ctx):
     f = replacing[0]
     g = ctx.cfg(f)
     owner = f.params[1]
+    inl5 = Inliner(f.node, allow_calls=False)   # `name = self.name` spelled as a local is still the owner's slot
     is_slot_read = lambda e: isinstance(e, ast.Call) and call_name(e) == "getattr" and len(e.args) == 2 \
-        and dotted(e.args[0]) == owner and dotted(e.args[1]) == "self.name"  # noqa: E731
+        and dotted(e.args[0]) == owner and inl5.dotted(e.args[1]) == "self.name"  # noqa: E731
     binds = {}
     for nm, v, st in name_stores(f.node):
         binds.setdefault(nm, []).append((v, st))
@@ -633,7 +637,7 @@ def r5(ctx):
     installs = []       # (cfg node, call)
     for n in g.nodes:
         for c in own_calls(n):
-            if call_name(c) == "setattr" and len(c.args) == 3 and dotted(c.args[0]) == owner and dotted(c.args[1]) == "self.name":
+            if call_name(c) == "setattr" and len(c.args) == 3 and dotted(c.args[0]) == owner and inl5.dotted(c.args[1]) == "self.name":
                 installs.append((n.id, c))
     ctx.require(installs and fresh and (cur or any(is_slot_read(x) for x in ast.walk(f.node))),
                 f"{f.qualname}: lazy-install idiom not recognised (setattr({owner}, self.name, <new>) / getattr({owner}, self.name))")
@@ -969,3 +973,21 @@ _LC_INIT = "        super().__init__()\n        if target_cls not in parent._cls
 R.mutant("benign-listener-collection-init-clslevel-alias", ATTR,
          sub(_LC_INIT, "        super().__init__()\n        known = parent._clslevel\n        if target_cls not in known:\n"
                        "            parent.update_subclass(target_cls)\n"), None)
+R.mutant("benign-for-modify-slot-name-in-local-inverted-branches", ATTR,
+         sub(FORMOD, "        name = self.name\n        existing = getattr(obj, name)\n\n        with util.mini_gil:\n"
+                     "            if existing is not self and not isinstance(existing, _JoinedListener):\n"
+                     "                assert isinstance(existing, _ListenerCollection)\n                return existing\n\n"
+                     "            result = _ListenerCollection(self.parent, obj._instance_cls)\n"
+                     "            if existing is self:\n                setattr(obj, name, result)\n        return result\n"), None)
+R.mutant("for-modify-inverted-branches-install-for-joined", ATTR,
+         sub(FORMOD, "        name = self.name\n        existing = getattr(obj, name)\n\n        with util.mini_gil:\n"
+                     "            if existing is not self and not isinstance(existing, _JoinedListener):\n"
+                     "                assert isinstance(existing, _ListenerCollection)\n                return existing\n\n"
+                     "            result = _ListenerCollection(self.parent, obj._instance_cls)\n"
+                     "            setattr(obj, name, result)\n        return result\n"), "C28-R5")
+R.mutant("benign-exec-once-flag-decision-in-boolean-local", ATTR,
+         sub("                    if not exception or not retry_on_exception:\n                        self._exec_once = True\n",
+             "                    mark_done = not exception or not retry_on_exception\n                    if mark_done:\n                        self._exec_once = True\n"), None)
+R.mutant("exec-once-flag-decision-in-boolean-local-ignores-retry", ATTR,
+         sub("                    if not exception or not retry_on_exception:\n                        self._exec_once = True\n",
+             "                    mark_done = not exception\n                    if mark_done:\n                        self._exec_once = True\n"), "C28-R1")
